@@ -185,6 +185,68 @@ def judge_chart(inp, obs, lr):
 
 
 # ------------------------------------------------------------------------------------------------
+# 1b. automatic chart choice (chart_index=None): correspondence
+# ------------------------------------------------------------------------------------------------
+def gen_auto(rng, n):
+    for _ in range(n):
+        dim = rng.choice([1, 2, 2, 3, 4, 5])
+        field = rfield(rng)
+        shape = rng.choice([[], [1], [2], [3], [2, 2]])
+        cnt = int(np.prod(shape)) if shape else 1
+        pz = rng.choice([0.0, 0.2, 0.45])
+        pts = [[Z(0) if rng.random() < pz else C.rz(rng, field, 6, 3) for _ in range(dim + 1)] for _ in range(cnt)]
+        if rng.random() < 0.15:          # no chart at all: every column has a zero somewhere
+            for c in range(dim + 1):
+                pts[rng.randrange(cnt)][c] = Z(0)
+        yield {"dim": dim, "field": field, "shape": shape, "pts": C.enc(pts, field)}
+
+
+def run_auto(inp):
+    f = inp["field"]
+    pts = C.dec(inp["pts"], f).reshape(tuple(inp["shape"]) + (inp["dim"] + 1,))
+    try:
+        aff, chart = P.affine_coords(pts.copy(), chart_index=None)
+        return {"aff": tolist(aff), "chart": int(chart)}
+    except GeometryError:
+        return {"aff": "GeometryError"}
+
+
+def lean_auto(inp, obs):
+    return [{"op": "c16.auto", "field": inp["field"], "xs": inp["pts"]}]
+
+
+def judge_auto(inp, obs, lr):
+    f, dim = inp["field"], inp["dim"]
+    cplx = f == "QI"
+    tags0 = {"field": f, "site": "affine_coords(chart_index=None)"}
+    if "exc" in obs:
+        return {"expected": "(affine, chart) or GeometryError", "observed": obs, "tags": dict(tags0, exc=obs["exc"]), "property_failure": True}
+    r = lr[0]
+    if "err" in r:
+        return {"expected": "model answer", "observed": r, "tags": dict(tags0, driver_err=r["err"])}
+    m = r["ok"]
+    pts = C.dec(inp["pts"], f).reshape(-1, dim + 1)
+    some_chart = bool(np.any(np.all(pts != 0, axis=0)))
+    if "err" in m:
+        if obs["aff"] != "GeometryError":
+            return {"expected": "GeometryError: no standard chart contains all the points", "observed": obs,
+                    "tags": dict(tags0, missed=True), "property_failure": not some_chart}
+        return None
+    if obs["aff"] == "GeometryError":
+        return {"expected": {"chart": m["chart"]}, "observed": "GeometryError", "tags": dict(tags0, rejected_valid=True),
+                "property_failure": some_chart}
+    if obs["chart"] != m["chart"]:
+        mins = np.min(np.abs(pts), axis=0)
+        if abs(mins[obs["chart"]] - mins[m["chart"]]) <= 1e-12 * (1 + mins[m["chart"]]):
+            return None           # a tie up to rounding: either chart is what the code promises
+        return {"expected": {"chart": m["chart"]}, "observed": obs["chart"], "tags": dict(tags0, chart=True),
+                "property_failure": bool(np.any(pts[:, obs["chart"]] == 0))}
+    if not same(asarr(obs["aff"], (-1, dim), cplx), C.dec(m["affine"], f).reshape(-1, dim)):
+        return {"expected": m["affine"], "observed": obs["aff"], "tags": dict(tags0, values=True)}
+    return None
+
+
+# ------------------------------------------------------------------------------------------------
 # 2. affine_linear_map / affine_translation: correspondence
 # ------------------------------------------------------------------------------------------------
 def gen_maps(rng, n):
@@ -452,7 +514,10 @@ def judge_inter(inp, obs, lr):
         resid = float(np.max(np.abs(C.dec(r["resid"], f)))) if d else 0.0
         mres = C.dec(r["result"], f).reshape(d, amb)
         if not same(res[u], mres):
-            return {"expected": r["result"], "observed": res[u].tolist(), "tags": dict(tags0, site="Subspace.intersect", unit=u)}
+            # a different spanning set of the same subspace is what the property allows: compare the spans
+            st = np.vstack([mres, res[u]])
+            if not (np.linalg.matrix_rank(res[u], tol=1e-9) == d and np.linalg.matrix_rank(st, tol=1e-9) == d):
+                return {"expected": r["result"], "observed": res[u].tolist(), "tags": dict(tags0, site="Subspace.intersect", unit=u)}
         if resid > 1e-9:
             # kernel contract violated by utils.kernel: then the rows do not lie in the second subspace
             via = C.dec(r["via_p2"], f).reshape(d, amb)
@@ -472,6 +537,8 @@ def gen_eig(rng, n):
         ncomp = rng.choice([0, 0, 1, 2, 3])
         units, lams = [], []
         target = F(rng.randint(-6, 6), rng.choice([1, 2]))
+        rot_re = None
+        near = rng.random() < 0.3        # a second eigenvalue at relative distance 1e-4..1e-2 from the requested one
         for u in range(max(ncomp, 1)):
             kind = rng.choice(["diagble", "diagble", "diagble", "rotation"]) if field == "Q" else "diagble"
             if kind == "rotation" and m >= 2:
@@ -481,6 +548,7 @@ def gen_eig(rng, n):
                     c_, s_ = F(3, 5), F(4, 5)
                 D = [[Z(0)] * m for _ in range(m)]
                 D[0][0], D[0][1], D[1][0], D[1][1] = Z(c_), Z(-s_), Z(s_), Z(c_)
+                rot_re = c_
                 lam = []
                 for i in range(2, m):
                     while True:
@@ -501,6 +569,9 @@ def gen_eig(rng, n):
                     lam.append(l)
                 if has_t and target != 0 and target not in lam:
                     lam[rng.randrange(m)] = target
+                if near and target != 0 and target in lam and m >= 2:
+                    j = next(i for i in range(m) if lam[i] != target)
+                    lam[j] = target * (1 + F(rng.choice([-1, 1]) * rng.randint(2, 90), 10000))
                 D = [[Z(lam[i]) if i == j else Z(0) for j in range(m)] for i in range(m)]
                 lam_all = lam
             g = C.rzinv(rng, field, m, 2, 1, F(1))
@@ -508,8 +579,10 @@ def gen_eig(rng, n):
             units.append(Pm)
             lams.append([None if l is None else Q.qs(l) for l in lam_all])
         ev = rng.choice(["none", "target", "target", "absent"])
-        yield {"m": m, "field": field, "ncomp": ncomp, "units": C.enc(units, field), "lams": lams,
-               "eigenvalue": None if ev == "none" else (Q.qs(target) if ev == "target" else "1000")}
+        evs = None if ev == "none" else (Q.qs(target) if ev == "target" else "1000")
+        if rot_re is not None and rng.random() < 0.5:
+            evs = Q.qs(rot_re)           # the real part of a non-real pair is NOT an eigenvalue
+        yield {"m": m, "field": field, "ncomp": ncomp, "units": C.enc(units, field), "lams": lams, "eigenvalue": evs}
 
 
 def _eig_obs(Pm):
@@ -613,6 +686,8 @@ def judge_eig(inp, obs, lr):
                 lam = w[k] / v[k]
                 if np.max(np.abs(w - lam * v)) > 1e-7 * (1 + np.max(np.abs(w))):
                     bad = True
+                if ev is not None and abs(lam - ev) > 1e-4 * (1 + abs(ev)):
+                    bad = True        # an eigenvector, but not for the requested eigenvalue
             return {"expected": {"selected": r0["ok"]}, "observed": obs["vec"],
                     "tags": dict(tags0, site="eigenvector", not_an_eigenvector=bad), "property_failure": bad}
     Pm = C.dec(inp["units"], inp["field"]).astype(complex)
@@ -900,6 +975,8 @@ def gen_eig_o(rng, n):
                     break
             if kind == "real_spectrum":
                 lam = np.array(sorted(rng.sample(range(-9, 10), m))) / 2.0 + 0.25
+                if rng.random() < 0.3:
+                    lam[1] = lam[0] * (1 + rng.choice([-1, 1]) * 10 ** rng.uniform(-3.7, -2.0))   # close, but distinct
                 M = np.linalg.inv(g) @ np.diag(lam) @ g
             else:
                 M = g
@@ -981,6 +1058,10 @@ CLAUSES = [
            site="projective.affine_coords/projective_coords/Point.in_affine_chart", budget={"quick": 160, "thorough": 4000},
            what="affine_coords / projective_coords (function, Point method, Point constructor, column layout) and in_affine_chart vs the "
                 "model over ℚ and ℚ(i): dims 1-5, every chart, composite shapes, rescaled representatives incl. purely imaginary and zero chart coordinates"),
+    Clause("autochart_corr", "corr", gen_auto, run_auto, judge_auto, lean=lean_auto, site="projective.affine_coords(chart_index=None)",
+           budget={"quick": 100, "thorough": 2500},
+           what="automatic chart choice (argmax over charts of the smallest |coordinate|): chosen chart, coordinates, and GeometryError "
+                "exactly when no standard chart contains all points; ℚ and ℚ(i), composite shapes, many zero coordinates"),
     Clause("maps_corr", "corr", gen_maps, run_maps, judge_maps, lean=lean_maps,
            site="projective.affine_linear_map/affine_translation", budget={"quick": 120, "thorough": 3000},
            what="proj_data and images of points for affine_linear_map (both layouts) and affine_translation vs the model's block matrices, ℚ and ℚ(i)"),
